@@ -185,7 +185,7 @@ theorem stepThread_geff (s : Sys) (t : Thread) :
       have := GEff.detach (s := s) (t := t) old hp ht
       exact this
     · simp only [ht, if_false]
-      exact q_adv _ (by rw [hp]; rfl) rfl (by intro tid own; simp [gownT, hp, ht])
+      exact q_pc _ (by rw [hp]; rfl) (by intro tid own; simp [gownT, hp, ht])
   | cQuiesced blk =>
     simp only
     exact q_pc _ (by rw [hp]; split <;> rfl) (by intro tid own; simp [gownT, hp])
@@ -625,7 +625,7 @@ theorem accnil_step (s : Sys) (t : Thread) (h : AccNil t) : AccNil (stepThread s
     simp only
     split
     · exact fun hw => by simp [walk] at hw
-    · exact AccNil_advance _ _
+    · exact fun _ => h (by rw [hp]; rfl)
   | cQuiesced blk => simp only; exact fun hw => by split at hw <;> simp [walk] at hw
   | cWait blk => simp only; exact fun hw => by split at hw <;> simp [walk] at hw
   | cRead blk => exact fun hw => by simp [walk] at hw
